@@ -322,6 +322,32 @@ func (r *resWorld) apply(op resOp) string {
 				return msg
 			}
 		}
+	case "addall":
+		// every resource of the case present at the same time (with ndyn = limit-4: all 256)
+		for j := range r.types {
+			if msg := r.register(j); msg != "" {
+				return msg
+			}
+			if r.present[j] {
+				continue
+			}
+			v := r.newValue(j, false)
+			if p := core.Call(func() { r.add(j, 0, v) }); p != nil {
+				return r.fail("adding absent resource %d panicked: %v", j, p)
+			}
+			r.present[j], r.ptr[j] = true, v
+		}
+	case "lockedreset":
+		// Reset on a locked world is refused and changes nothing - the resources are still there
+		if len(r.queries) == 0 {
+			return ""
+		}
+		if p := core.Call(func() { r.w.Reset() }); p == nil {
+			return "Reset on a locked world did not panic"
+		}
+		if !r.w.IsLocked() {
+			return "a refused Reset released the world lock"
+		}
 	case "regcomp":
 		if len(ecs.ComponentIDs(r.w)) < ecs.MaskTotalBits && len(r.queries) == 0 {
 			ecs.TypeID(r.w, core.FillerType(r.compN))
@@ -424,7 +450,7 @@ func runResProp(t *testing.T, id, test, rule string, owns func(msg string) bool)
 			npre := rapid.IntRange(0, min(n, 6)).Draw(rt, "npre")
 			c.Order = rapid.Permutation(seqInts(n)).Draw(rt, "order")[:npre]
 			nops := rapid.IntRange(1, 40).Draw(rt, "nops")
-			kinds := []string{"add", "add", "add", "rem", "rem", "illadd", "illrem", "regres", "regcomp", "ent", "ent", "lock", "unlock", "reset", "get", "get", "get", "replace", "replace", "regall"}
+			kinds := []string{"add", "add", "add", "rem", "rem", "illadd", "illrem", "regres", "regcomp", "ent", "ent", "lock", "unlock", "reset", "get", "get", "get", "replace", "replace", "regall", "addall", "lockedreset", "lockedreset"}
 			present := map[int]bool{}
 			maxPresent, removals, lockOrReset := 0, 0, false
 			for i := 0; i < nops; i++ {
@@ -467,6 +493,10 @@ func runResProp(t *testing.T, id, test, rule string, owns func(msg string) bool)
 					lockOrReset = true
 				case "lock":
 					lockOrReset = true
+				case "addall":
+					for j := 0; j < n; j++ {
+						present[j] = true
+					}
 				}
 				if len(present) > maxPresent {
 					maxPresent = len(present)
@@ -501,7 +531,7 @@ func runResProp(t *testing.T, id, test, rule string, owns func(msg string) bool)
 }
 
 func TestC20(t *testing.T) {
-	runResProp(t, "C20", "TestC20", "sequences of Add/Remove/Get/Has over 4 static resource types (through Resources, generic.Resource and AddResource/GetResource) and up to MaskTotalBits-4 dynamic ones, registered in a generated order (now and then all at once: a completely full registry) interleaved with component-type registrations, entity creation/removal, open queries (world lock) and Reset, with illegal Add-present / Remove-absent injected; after every op every registered resource type is read through Resources, and at generated steps (and at the end) through the long-lived generic.Resource mappers and GetResource as well (a mapper asked after every step could never be caught with a stale value); Remove+Add of a new pointer in one step is an op of its own: Has == model, Get == the exact pointer passed to Add (nil when absent), resource IDs dense in their own registry and stable; non-trivial = >= 3 resource types present at some point with a removal in between and a lock or Reset in the history", nil)
+	runResProp(t, "C20", "TestC20", "sequences of Add/Remove/Get/Has over 4 static resource types (through Resources, generic.Resource and AddResource/GetResource) and up to MaskTotalBits-4 dynamic ones, registered in a generated order (now and then all at once: a completely full registry; now and then all resources present at once; Reset attempted on a locked world: refused, nothing changes) interleaved with component-type registrations, entity creation/removal, open queries (world lock) and Reset, with illegal Add-present / Remove-absent injected; after every op every registered resource type is read through Resources, and at generated steps (and at the end) through the long-lived generic.Resource mappers and GetResource as well (a mapper asked after every step could never be caught with a stale value); Remove+Add of a new pointer in one step is an op of its own: Has == model, Get == the exact pointer passed to Add (nil when absent), resource IDs dense in their own registry and stable; non-trivial = >= 3 resource types present at some point with a removal in between and a lock or Reset in the history", nil)
 }
 
 // TestC18Resource is the resource part of C18: generic.Resource[T] (long-lived mappers) and
